@@ -20,6 +20,8 @@ def run_config(case):
     from mc import precip, precip_oracles as po
     r = precip.run_model(case)
     viol = po.check_c03(r)
+    if r['model'] is None:
+        return {'viol': viol if isinstance(viol, list) else [], 'states': 0, 'outcome': 'build-error/' + r['error'][0], 'nontrivial': False, 'info': {'error': r['error']}}
     d = r['model'].pData
     oc = '%s/%s/%s' % (case.get('system'), case.get('temp'), 'pop' if float(d.volFrac.max()) > 0 else 'empty')
     if r['error'] is not None:
@@ -44,6 +46,8 @@ def run_fault_group(case):
     key = repr(sorted(base.items(), key=lambda kv: kv[0]))
     if key not in _REF:
         ref = precip.run_model(dict(base))
+        if ref['model'] is None:
+            raise RuntimeError('fault-free reference run could not be built: %r' % (ref['error'],))
         _REF[key] = (ref['error'], [float(v) for v in ref['model'].pData.volFrac[-1]], dict(ref['therm'].faults.calls))
     rerr, rfv, rcalls = _REF[key]
     ncalls = rcalls.get(method, 0)
@@ -53,15 +57,15 @@ def run_fault_group(case):
         cfg['faults'] = {method: list(pl)}
         r = precip.run_model(cfg)
         nexec += 1
-        d = r['model'].pData
-        nstates += int(d.n)
-        fired = len(r['therm'].faults.fired)
+        d = r['model'].pData if r['model'] is not None else None
+        nstates += int(d.n) if d is not None else 0
+        fired = len(r['therm'].faults.fired) if r['therm'] is not None else -1
         vs = po.check_c03(r)
         for v in vs:
             sig = v['sig'].replace('C03/', 'C03/fault:%s/' % method, 1)
             if sig not in viol:
                 viol[sig] = {'sig': sig, 'msg': 'faults %s at calls %r (fired %d): %s' % (method, list(pl), fired, v['msg'])}
-        if r['error'] is None and rerr is None:
+        if r['error'] is None and rerr is None and d is not None:
             fv = [float(v) for v in d.volFrac[-1]]
             for a, b in zip(fv, rfv):
                 if abs(a - b) > 0.5 * max(abs(b), 1e-4):
@@ -87,7 +91,7 @@ def config_cases(tier):
     # (1) the shared products (well-formedness of every run C01/C02 look at)
     main = pp.main_product(tier)
     if quick:
-        main = [c for c in main if c['precdiff'] == 'inf' and c['vm'] == 1.0]
+        main = [c for c in main if c['precdiff'] == 'inf']
     out += main
     out += [c for c in pp.shape_product(tier) if (not quick) or (c['it'] == 'euler')]
     # (2) constraint toggles x solver fractions x temperatures inside / on / outside the two-phase region
@@ -110,6 +114,12 @@ def config_cases(tier):
         cons.update(TOGGLES[d.pop('toggle')])
         d['constraints'] = cons
         out.append(d)
+    # (2b) temperature steps (quench and up-quench): short runs, generous horizon
+    for system in ('bin', 'tern'):
+        for temp in ('jump', 'jumpdown'):
+            for it in ('euler', 'rk4'):
+                out.append({'system': system, 'temp': temp, 'it': it, 'tf': 2.0, 'constraints': {'dtScale': 0.05},
+                            'max_steps': 20000, 'record': False})
     # (3) recording with a fixed grid, all site types, compositions at the edge
     for system in ('bin', 'tern'):
         for site in ['bulk', 'dislocations', 'grain boundaries', 'grain edges', 'grain corners']:
